@@ -62,6 +62,9 @@ CHECKS = {
  "C18": ("model-based testing through the CLI with piped stdin: proptest-generated programs of 1-4 console interrupt calls (INT 21h AH=1/2/0Ah, INT 10h AH=0Ah/13h) with generated register, segment and flag values, buffers and strings placed mid-memory, at segment ends, ending at FFFFFh and wrapping past it, capacities 0..255, input lines empty/shorter/equal/longer than the capacity, stdin complete / without final newline / ending early / closed; after every call registers, flags and the pre-filled buffer region are printed and compared event by event with the reference machine; the stored count of AH=0Ah is read back and checked against the documented bound; exhaustive enumeration of all 256 AH values for both interrupts",
          "exploration; 10^3 (quick) / 3*10^4 (thorough) programs plus 512 enumerated AH programs per run; characters written, AL results, every other register, all flags and memory (buffer interior, 2 bytes before, 8 after) compared; exit status 0 and no panic for every register and input content generated",
          "trusted: reference machine and stdout tokenizer; bytes >= 80h are accepted as the UTF-8 of that code point; a line terminator right after the stored characters is accepted; AH=1 on an empty line and offset wrap inside a segment are not generated (unspecified)", "3/C18"),
+ "C16": ("position oracle from generator-known offsets: proptest-generated programs (procedures, macros nested 1-2 deep at top level and in procedures, prints, INT 3, trap-flag stepping, faulting division / unsupported interrupt) rendered under random layouts with recorded statement offsets; (A) every source-map entry converted with the driver's get_err_pos must give the statement's line and exact line bounds; (B) single-token corruption at generated token positions (unexpected token, invalid character, truncation) and C14's one-line semantic mutants must be diagnosed with that line, column and text, in-process through the driver's preprocess() and through the CLI; (C) every line-citing run-time message of the CLI must name the line and text of the statement the reference interpreter executes; (D) undefined-label report line/column/text",
+         "exploration; 6*10^3 (quick) / 2*10^5 (thorough) programs for the source map, 3*10^3 / 6*10^4 token corruptions, 2*10^3 / 4*10^4 semantic mutants, 9.5*10^2 / 1.15*10^4 CLI runs; first/middle/last line, last line without trailing newline, macro-made, implied ret populations asserted",
+         "trusted: the renderer's recorded offsets and the reference interpreter's executed-statement sequence; for a duplicate definition either line is acceptable (not checked); wording of messages is not compared", "3/C16"),
 }
 
 REASON_WIP = "check not built yet in this revision of /verif (work in progress; see DESIGN.md section 7 for the order of work)"
